@@ -332,6 +332,8 @@ class Interp:
         self.consts = dict(lits or {})
         self.K = split_bound
         self.N = len_bound
+        self.recursion_bound = 6
+        self.feasible = None  # optional exact reachability oracle used to prune recursive calls
         self.panics = []  # (guard, message)
         self.unwinds = []  # (guard, message)
         self.side = []  # side constraints defining fresh symbols (always asserted)
@@ -412,6 +414,15 @@ class Interp:
             own = None
         if len(params) != len(args):
             raise Unsupported("arity mismatch calling %s" % fname)
+        active = sum(1 for fr in self.frames if fr.name == fname)
+        if active:
+            # recursion: an unreachable recursive call is not executed; a reachable one deeper than the bound is an
+            # unwinding obligation (like a loop bound), never a silent cut
+            if z3.is_false(z3.simplify(pc)) or (self.feasible is not None and not self.feasible(pc)):
+                return VUninit()
+            if active >= self.recursion_bound:
+                self.unwind(pc, "recursion of %s deeper than %d" % (fname, self.recursion_bound))
+                return VUninit()
         env = {}
         for p, a in zip(params, args):
             if p["name"] == "self":
@@ -913,6 +924,10 @@ class Interp:
             return VUnit(), env, pc
         if l["k"] == "field":
             base, env, pc = self.eval(l["base"], env, pc)
+            if isinstance(base, VTuple) and l["member"].isdigit():
+                items = list(base.items)
+                items[int(l["member"])] = v
+                return self.assign_to(l["base"], VTuple(items), env, pc)
             if not isinstance(base, VStruct):
                 raise Unsupported("field assignment on " + type(base).__name__)
             nb = VStruct(base.name, dict(base.fields))
@@ -1318,8 +1333,17 @@ class Interp:
             it = it.vec
         if not isinstance(it, VVec):
             raise Unsupported("for over " + type(it).__name__)
+        by_mut_ref = None
+        if e["iter"]["k"] == "ref" and e["iter"].get("mutable"):
+            # `for x in &mut place`: x aliases place[i]; writes through x update the vector
+            if e["pat"]["k"] != "ident":
+                raise Unsupported("destructuring pattern in a `for` over &mut")
+            by_mut_ref = strip_ref(e["iter"])
         exits = []
         for i, item in enumerate(it.items):
+            if by_mut_ref is not None:
+                item = VRefPlace({"k": "index", "line": e.get("line"), "base": by_mut_ref,
+                                  "index": {"k": "lit", "ty": "int", "value": str(i), "suffix": ""}})
             has = ugt(it.n, bv(i))
             active = z3.simplify(z3.And(pc, has))
             exits.append((z3.And(pc, z3.Not(has)), env))
@@ -1434,6 +1458,9 @@ class Interp:
     def e_vec_repeat(self, e, env, pc):
         el, env, pc = self.eval(e["elem"], env, pc)
         n, env, pc = self.eval(e["len"], env, pc)
+        if "vec_repeat" in self.overrides:
+            self.models_used.add("stub:vec_repeat")
+            return self.overrides["vec_repeat"](self, [el, n], pc), env, pc
         if isinstance(el, VChar):
             # vec![0u8; n]: a byte buffer of symbolic length (capacity = buffer_cap)
             self.unwind(z3.And(pc, ugt(n.e, bv(self.buffer_cap))), "vec![_; n] longer than %d (line %s)" % (self.buffer_cap, e.get("line")))
